@@ -1,5 +1,5 @@
     ensures
         final(w).io_faults == old(w).io_faults,
-        r is Ok ==> final(w).trunc == (if self.is_in_batch { old(w).trunc.push(trunc_ev(&self.reader, self.last_valid_pos)) } else { old(w).trunc }), // [C03:discard-open-batch] [C09:repaired-journal-keeps-later-appends-recoverable] [C15:repaired-journal-keeps-later-commits-recoverable]
+        r is Ok ==> final(w).trunc == (if self.is_in_batch { old(w).trunc.push(trunc_ev(&self.reader, self.last_valid_pos)) } else { old(w).trunc }), // [C04:discard-open-batch] [C11:discard-open-batch] [C03:discard-open-batch] [C09:repaired-journal-keeps-later-appends-recoverable] [C15:repaired-journal-keeps-later-commits-recoverable]
         r is Err ==> final(w).trunc == old(w).trunc || final(w).trunc == old(w).trunc.push(trunc_ev(&self.reader, self.last_valid_pos)),
         !old(w).io_faults ==> r is Ok,
